@@ -36,6 +36,7 @@ ANCHORS = ["Parser.parse", "MockIncludeDirective.run", "DocutilsRenderer.render_
 TMP = None
 SDIR = None
 AUDIT = None
+AUDIT_STD = None
 NEEDLE = "sentinel-dir-c20"
 
 
@@ -60,6 +61,9 @@ def setup(ctx):
         with open(os.path.join(SDIR, k), "w", encoding="utf8") as f:
             f.write(v)
     AUDIT = mon.AuditLog(NEEDLE)
+    global AUDIT_STD
+    AUDIT_STD = mon.AuditLog("parsers/rst/include/isonum")
+    AUDIT_STD.enabled = False
     mon.start_reach(ctx)
 
 
@@ -106,6 +110,11 @@ def constructs():
         "include_literal": (lambda n: ["```{include} " + f"{D}/inc.txt", ":literal:", "```"], "file", "FILESENT2"),
         "include_code": (lambda n: ["```{include} " + f"{D}/inc.py", ":code: python", "```"], "file", "FILESENT3"),
         "include_nested": (lambda n: ["```{include} " + f"{D}/nested.md", "```"], "file", "FILESENT2"),
+        # docutils' "standard include" spelling <...>: the data files shipped with docutils, or (absolute) any file
+        "include_angle_std": (lambda n: ["```{include} <isonum.txt>", ":literal:", "```"], "file", "placed in the public domain"),
+        "include_angle_abs": (lambda n: ["```{include} <" + os.path.join(SDIR, "inc.txt") + ">", ":literal:", "```"], "file", "FILESENT2"),
+        "include_angle_md": (lambda n: ["```{include} <" + os.path.join(SDIR, "inc.rst") + ">", "```"], "file", "FILESENT6"),
+        "evalrst_include_std": (lambda n: ["```{eval-rst}", ".. include:: <isonum.txt>", "   :literal:", "```"], "file", "placed in the public domain"),
         "csv_file": (lambda n: ["```{csv-table} T", f":file: {D}/data.csv", "```"], "file", "FILESENT4"),
         "evalrst_include": (lambda n: ["```{eval-rst}", f".. include:: {D}/inc.rst", "```"], "file", "FILESENT6"),
         "evalrst_csv": (lambda n: ["```{eval-rst}", ".. csv-table:: T", f"   :file: {D}/data2.csv", "```"], "file", "FILESENT7"),
@@ -143,12 +152,13 @@ def run_one(text, raw_on, file_on, suppress=()):
     src = os.path.join(TMP, "doc.md")
     kw = dict(myst_enable_extensions=EXT, myst_substitutions={"rawsub": "<x-sentinel-777 a=\"1\">", "rawsub_inline": "<x-sentinel-778 a=\"1\">"}, raw_enabled=raw_on, file_insertion_enabled=file_on, doctitle_xform=False, myst_suppress_warnings=list(suppress))
     AUDIT.clear()
-    AUDIT.enabled = True
+    AUDIT_STD.clear()
+    AUDIT.enabled = AUDIT_STD.enabled = True
     doc, w = drive.parse(text, source_path=src, **kw)
-    opens_parse = [e for e in AUDIT.events if e[0] == "open"]
+    opens_parse = [e for e in AUDIT.events + AUDIT_STD.events if e[0] == "open"]
     out, w2 = drive.to_html(text, source_path=src, **kw)
-    opens_all = [e for e in AUDIT.events if e[0] == "open"]
-    AUDIT.enabled = False
+    opens_all = [e for e in AUDIT.events + AUDIT_STD.events if e[0] == "open"]
+    AUDIT.enabled = AUDIT_STD.enabled = False
     return doc, w, out, opens_parse, opens_all
 
 
@@ -221,6 +231,10 @@ def eval_case(ctx, case):
         for k in range(1, 10):
             if f"FILESENT{k}" in out or f"FILESENT{k}" in doc.astext():
                 ctx.violation("file-disabled:file-content-inserted", f"content of a sentinel file (FILESENT{k}) is in the document with file_insertion_enabled=False", case, d)
+                break
+        for nm, n in file_constructs:
+            if C[nm][2] in out or C[nm][2] in doc.astext():
+                ctx.violation("file-disabled:file-content-inserted", f"content of the file read by {nm} ({C[nm][2]!r}) is in the document with file_insertion_enabled=False", case, d)
                 break
         nref = len(re.findall(r"disabled|deactivated", w))
         if nref < len(file_constructs):
